@@ -658,14 +658,14 @@ func (t *tokenAwareHostPolicy) Pick(qry ExecutableQuery) NextHost {
 		}
 
 		if t.nonLocalReplicasFallback {
-			for j < len(remote) && k < len(remote[j]) {
-				h := remote[j][k]
-				k++
-
+			for j < len(remote) {
 				if k >= len(remote[j]) {
 					j++
 					k = 0
+					continue
 				}
+				h := remote[j][k]
+				k++
 
 				if h.IsUp() {
 					used[h] = true
